@@ -21,8 +21,8 @@ def register(reg):
              ensures=[('property', 'result == -1 or (pos < result and result <= len(s) and int_ok(s[pos:result]))')])
     contract(reg, f'{F}:match_float', P, {'s': 'arrstr', 'pos': 'int'}, ret='int',
              requires=['0 <= pos', 'pos <= len(s)'],
-             ensures=[('property', 'result == -1 or (pos < result and result <= len(s))')],
-             assumed_ensures=[('B:C08/match_float-language', 'result == -1 or float_ok(s[pos:result])')])
+             ensures=[('property', 'result == -1 or (pos < result and result <= len(s))'),
+                      ('property', 'result == -1 or float_ok(s[pos:result])')])
     contract(reg, f'{F}:match_bool', P, {'s': 'arrstr', 'pos': 'int'}, ret='int',
              requires=['0 <= pos', 'pos <= len(s)'],
              ensures=[('property', "result == -1 or (pos < result and result <= len(s) and "
